@@ -50,7 +50,10 @@ func run(c *vf.Ctx) {
 		sp := chain.Spec(n)
 		m := &chain.Model{Name: "union", Spec: sp, Menu: menu,
 			Opt: chain.Options{CheckLedger: true, CheckForest: true, CheckSupply: true},
-			H:   vf.Pick[uint64](c, 8, 9), D: vf.Pick(c, 2, 2), K: vf.Pick(c, 1, 2), R: vf.Pick(c, 1, 1)}
+			H:   vf.Pick[uint64](c, 8, 8), D: vf.Pick(c, 2, 2), K: vf.Pick(c, 1, 2), R: vf.Pick(c, 1, 1)}
+		if n == "v2-eph5" || n == "v1-mid" {
+			m.K = 1 // the two extra networks of the thorough tier: single-action blocks
+		}
 		if sp.Name == "mixed" {
 			m.SkipStart = 3
 			m.H += 3
